@@ -56,7 +56,8 @@ Lemma parse_dict d : parse (JDict d) = PT d (map parse (kids_of d)).
 Proof.
   cbn [parse]. f_equal. unfold kids_of.
   induction d as [|[k v] r IH]; [reflexivity|].
-  cbn [dget]. destruct (text_eqb k_children k); [destruct v; reflexivity|exact IH].
+  cbn [dget]. destruct (text_eqb k_children k); [|exact IH].
+  destruct v; try reflexivity; cbn [map parse]; destruct (truthy _); reflexivity.
 Qed.
 
 Lemma fd_item_PT dd calc d kids seen :
